@@ -1457,13 +1457,14 @@ pub fn run(tier: Tier) -> i32 {
     sweep_origin(&mut rep, tier);
     sweep_socks(&mut rep, tier);
     sweep_socks_udp(&mut rep, tier);
+    super::cq::c09_into(&mut rep, tier);
     rep.cov("exhaustive", rep.sub.iter().all(|s| s.get("completed").and_then(|c| c.as_bool()).unwrap_or(true)));
     rep.cov("rule", "one exhaustive sweep per parser over strings built from the values it branches on (see sub-checks); every case under a panic boundary with overflow checks, a 30 s watchdog and a per-call allocation meter; distinct = outcome classes per sweep");
     rep.sample(json!({"kind":"ip-skip","v6":true,"packet":"6000000000000000" .to_string() + &"00".repeat(32) + "3aff"}));
     rep.sample(json!({"kind":"udp-stream","len":4294967295u32,"name_len":255,"present":38,"cut":5}));
     rep.sample(json!({"kind":"h1-request","bytes":hexs(b"CONNECT :\x80 HTTP/1.1\r\nHost: h\r\n\r\n"),"cut":null,"family":"tokens+tail"}));
     rep.sample(json!({"kind":"socks-reply","bytes":"050005000003ff","lockstep":true,"family":"reply"}));
-    rep.assume("QUIC / HTTP/3 packets are not driven (no in-memory door for the quiche path); HTTP/2 frames are parsed by the h2 crate, not by this code base");
+    rep.assume("QUIC packets are parsed by quiche; the listener's own handling (version negotiation, retry, tokens, connection ids) is driven with raw datagrams on loopback; HTTP/2 frames are parsed by the h2 crate");
     rep.finish()
 }
 
